@@ -147,7 +147,9 @@ func VerifC20_MonitorConcurrent() {
 //verif:opts race preempt=sync pb=1 sched=2 part0=6 part1=2 novalidate
 func VerifC20_MonitorConcurrentBackoff() {
 	d, m, mc, chid := verifMonitor20(true)
-	a, b, c := zz.Choice("opA", verifNumOps20), zz.Choice("opB", verifNumOps20), zz.Choice("opC", verifNumOps20)
+	// the third operation is the one that starts restart activity (transport error + debounce
+	// expiry), so that the other two run against a restart that is waiting on its backoff timer
+	a, b, c := zz.Choice("opA", verifNumOps20), zz.Choice("opB", verifNumOps20), 5
 	var wg sync.WaitGroup
 	wg.Add(3)
 	go func() { defer wg.Done(); verifOp20(d, m, mc, chid, a) }()
